@@ -6,36 +6,83 @@ import LbzVerif.Lemmas.SchedD.Safe
 namespace LbzVerif.Lemmas.SchedD
 open LbzVerif.Model.SchedD LbzVerif.Gen
 
-theorem ubOK_orphan {c : Cfg} {g : Nat} {j : Job} (hj : jobOK c g j) :
-    ∀ u ∈ j.orphan, ubOK c u := by
+theorem offs_mono (c : Cfg) {a b : Nat} (h : a ≤ b) : offs c a ≤ offs c b := by
+  unfold offs
+  have : a * c.W ≤ b * c.W := Nat.mul_le_mul_right _ h
+  omega
+
+theorem headOffs_advance_ge (c : Cfg) (s : State) (p : Nat) :
+    headOffs c s ≤ headOffs c (advance c s p) := by
+  show offs c s.head ≤ offs c (newHead c s p)
+  apply offs_mono; unfold newHead; omega
+
+theorem headOffs_advance_le (c : Cfg) (s : State) (p : Nat) :
+    headOffs c (advance c s p) ≤ max (headOffs c s) p := by
+  show offs c (newHead c s p) ≤ max (offs c s.head) p
+  unfold newHead
+  by_cases h : s.head ≤ min s.rd (if c.T ≤ p then s.rd else p / c.W)
+  · rw [Nat.max_eq_right h]
+    by_cases hT : c.T ≤ p
+    · have : offs c (min s.rd (if c.T ≤ p then s.rd else p / c.W)) ≤ c.T := by unfold offs; omega
+      omega
+    · simp only [hT, if_false]
+      have h1 : offs c (min s.rd (p / c.W)) ≤ offs c (p / c.W) := offs_mono c (Nat.min_le_right _ _)
+      have h2 : offs c (p / c.W) ≤ p := by
+        unfold offs
+        have := Nat.div_mul_le_self p c.W
+        omega
+      omega
+  · rw [Nat.max_eq_left (by omega)]; omega
+
+/-- what `discard()` leaves in unord_q for a job that lies behind `ho` -/
+theorem ubOK_orphan {c : Cfg} {g : Nat} {j : Job} {s' : State} (hj : jobOK c g j)
+    (hb : j.base < headOffs c s') : ∀ u ∈ j.orphan, ubOK c s' u := by
   intro u hu
   unfold Job.orphan at hu
   split at hu
   · simp at hu
-  · next f hf =>
-    simp at hu; subst hu
-    intro hi hc
-    have := hj.2.2 f hf hi
-    simp_all
+  · split at hu
+    · simp at hu
+    · simp only [List.mem_singleton] at hu; subst hu
+      exact ⟨rfl, fun _ => Or.inr hb⟩
+
+theorem ubOK_mono {c : Cfg} {s s' : State} {u : UB} (h : ubOK c s u)
+    (hh : headOffs c s ≤ headOffs c s') : ubOK c s' u := by
+  refine ⟨h.1, fun hi => ?_⟩
+  rcases h.2 hi with h | h
+  · exact Or.inl h
+  · exact Or.inr (by omega)
 
 theorem mcount_le_of {s s' : State} (h1 : List.countP Job.mc s'.retrQ ≤ List.countP Job.mc s.retrQ)
     (h2 : List.countP Phase.mc s'.busy ≤ List.countP Phase.mc s.busy) : mcount s' ≤ mcount s := by
   simp only [mcount]; omega
 
-theorem SI_advance {c : Cfg} {s : State} (p : Nat) (h : SI c s) : SI c (advance c s p) := by
-  obtain ⟨a1, a2, a3, a4, a5, a6, a7, a8, a9, a10, a11, a12⟩ := h
+/-- `advance(p)` keeps the invariant, provided the new position does not pass
+    the next block header -/
+theorem SI_advance {c : Cfg} {s : State} (p : Nat) (h : SI c s)
+    (hp : s.pdone = false → ∀ b, pres c s.gnext = .hdr b → p ≤ b) : SI c (advance c s p) := by
+  obtain ⟨a1, a2, a3, a4, a5, a6, a7, a8, a9, a10, a11, a12, a13⟩ := h
   have hc : mcount (advance c s p) ≤ mcount s := by
     apply mcount_le_of
     · exact List.Sublist.countP_le List.filter_sublist
     · exact Nat.le_refl _
-  refine ⟨a1, a2, a3, a4, Nat.le_trans hc a5, ?_, ?_, a8, a9, a10, ?_, a12⟩
+  refine ⟨a1, a2, a3, a4, Nat.le_trans hc a5, ?_, ?_, a8, a9, a10, ?_, a12, ?_⟩
   · intro hh; have := a6 hh; omega
-  · intro j hj; exact a7 j ((List.mem_filter.1 hj).1)
-  · intro u hu
+  · intro j hj; exact a7 j (List.mem_filter.1 hj).1
+  · intro hd u hu
     simp only [advance, List.mem_append, List.mem_flatMap] at hu
     rcases hu with ⟨j, hj, hu⟩ | hu
-    · exact ubOK_orphan (a7 j ((List.mem_filter.1 hj).1)) u hu
-    · exact a11 u hu
+    · have hjm := List.mem_filter.1 hj
+      have hlt' : j.curr < offs c (newHead c s p) := by simpa using hjm.2
+      have hlt : j.curr < headOffs c (advance c s p) := hlt'
+      have hjo := a7 j hjm.1
+      exact ubOK_orphan hjo (by have := hjo.2.2.2.1; omega) u hu
+    · exact ubOK_mono (a11 hd u hu) (headOffs_advance_ge c s p)
+  · intro hd b hb
+    have := headOffs_advance_le c s p
+    have h1 := a13 hd b hb
+    have h2 := hp hd b hb
+    omega
 
 theorem advance_fields (c : Cfg) (s : State) (p : Nat) :
     (advance c s p).ptok = s.ptok ∧ (advance c s p).pphase = s.pphase ∧
@@ -49,10 +96,10 @@ theorem detach_fields (s : State) (k : Option Nat) :
     (detach s k).pdone = s.pdone ∧ (detach s k).failed = s.failed ∧
     (detach s k).busy = s.busy ∧ (detach s k).retrQ = s.retrQ ∧
     (detach s k).orphans = s.orphans ∧ (detach s k).written = s.written ∧
-    (detach s k).orderQ = s.orderQ := by
+    (detach s k).orderQ = s.orderQ ∧ (detach s k).head = s.head := by
   unfold detach; split
-  · exact ⟨rfl, rfl, rfl, rfl, rfl, rfl, rfl, rfl, rfl, rfl, rfl⟩
-  · split <;> exact ⟨rfl, rfl, rfl, rfl, rfl, rfl, rfl, rfl, rfl, rfl, rfl⟩
+  · exact ⟨rfl, rfl, rfl, rfl, rfl, rfl, rfl, rfl, rfl, rfl, rfl, rfl⟩
+  · split <;> exact ⟨rfl, rfl, rfl, rfl, rfl, rfl, rfl, rfl, rfl, rfl, rfl, rfl⟩
 
 theorem mcount_detach (s : State) (k : Option Nat) : mcount (detach s k) = mcount s := by
   have := detach_fields s k
@@ -61,10 +108,10 @@ theorem mcount_detach (s : State) (k : Option Nat) : mcount (detach s k) = mcoun
 /-- removing a busy phase -/
 theorem SI_busy_erase {c : Cfg} {s : State} (ph : Phase) (h : SI c s) :
     SI c { s with busy := s.busy.erase ph } := by
-  obtain ⟨a1, a2, a3, a4, a5, a6, a7, a8, a9, a10, a11, a12⟩ := h
+  obtain ⟨a1, a2, a3, a4, a5, a6, a7, a8, a9, a10, a11, a12, a13⟩ := h
   have hc : mcount { s with busy := s.busy.erase ph } ≤ mcount s :=
     mcount_le_of (Nat.le_refl _) (countP_erase_le _ _ _)
-  refine ⟨a1, a2, a3, a4, Nat.le_trans hc a5, ?_, a7, ?_, a9, a10, a11, a12⟩
+  refine ⟨a1, a2, a3, a4, Nat.le_trans hc a5, ?_, a7, ?_, a9, a10, a11, a12, a13⟩
   · intro hh; have := a6 hh; omega
   · intro x hx; exact a8 x (List.mem_of_mem_erase hx)
 
@@ -73,21 +120,22 @@ theorem SI_busy_erase {c : Cfg} {s : State} (ph : Phase) (h : SI c s) :
 theorem SI_scanNew {c : Cfg} {s1 : State} (x : Nat) (h1 : SI c s1) :
     SI c (scanNew s1 x) ∧ (scanNew s1 x).failed = s1.failed := by
   unfold scanNew; split
-  · exact ⟨SI_congr h1 rfl rfl rfl rfl rfl rfl rfl rfl rfl rfl rfl rfl, rfl⟩
-  · obtain ⟨a1, a2, a3, a4, a5, a6, a7, a8, a9, a10, a11, a12⟩ := h1
-    refine ⟨⟨a1, a2, a3, a4, ?_, ?_, ?_, a8, a9, a10, a11, a12⟩, rfl⟩
+  · exact ⟨SI_congr h1 rfl rfl rfl rfl rfl rfl rfl rfl rfl rfl rfl rfl rfl, rfl⟩
+  · obtain ⟨a1, a2, a3, a4, a5, a6, a7, a8, a9, a10, a11, a12, a13⟩ := h1
+    refine ⟨⟨a1, a2, a3, a4, ?_, ?_, ?_, a8, a9, a10, a11, a12, a13⟩, rfl⟩
     · simpa [mcount, List.countP_cons, Job.mc] using a5
     · intro hh; simpa [mcount, List.countP_cons, Job.mc] using a6 hh
     · intro j hj
       rcases List.mem_cons.1 hj with e | hm
       · subst e
-        exact ⟨rres_ge c x, by simp [Job.mc], by intro f hf; simp at hf; subst hf; simp⟩
+        exact ⟨rres_ge c x, by simp [Job.mc], by intro f hf; simp at hf; subst hf; simp,
+          Nat.le_refl _, by intro f hf; simp at hf; subst hf; exact rres_ge c x⟩
       · exact a7 j hm
 
 theorem SI_scanRequeue {c : Cfg} {s2 : State} (x hi : Nat) (h : SI c s2) :
     SI c (scanRequeue c s2 x hi) ∧ (scanRequeue c s2 x hi).failed = s2.failed := by
   unfold scanRequeue; split
-  · exact ⟨SI_congr h rfl rfl rfl rfl rfl rfl rfl rfl rfl rfl rfl rfl, rfl⟩
+  · exact ⟨SI_congr h rfl rfl rfl rfl rfl rfl rfl rfl rfl rfl rfl rfl rfl, rfl⟩
   · exact ⟨h, rfl⟩
 
 theorem SI_scanEnd {c : Cfg} {s s' : State} {st k : Nat} (h : SI c s)
@@ -101,11 +149,11 @@ theorem SI_scanEnd {c : Cfg} {s s' : State} {st k : Nat} (h : SI c s)
     dsimp only at hs
     split at hs
     · simp only [Option.some.injEq] at hs; subst hs
-      exact ⟨SI_congr h1 rfl rfl rfl rfl rfl rfl rfl rfl rfl rfl rfl rfl, hf1⟩
+      exact ⟨SI_congr h1 rfl rfl rfl rfl rfl rfl rfl rfl rfl rfl rfl rfl rfl, hf1⟩
     · next x hx =>
       split at hs
       · simp only [Option.some.injEq] at hs; subst hs
-        exact ⟨SI_congr h1 rfl rfl rfl rfl rfl rfl rfl rfl rfl rfl rfl rfl, hf1⟩
+        exact ⟨SI_congr h1 rfl rfl rfl rfl rfl rfl rfl rfl rfl rfl rfl rfl rfl, hf1⟩
       · simp only [Option.some.injEq] at hs; subst hs
         have n1 := SI_scanNew (c := c) x h1
         have n2 := SI_scanRequeue (c := c) x (offs c (k + 1)) n1.1
@@ -114,32 +162,43 @@ theorem SI_scanEnd {c : Cfg} {s s' : State} {st k : Nat} (h : SI c s)
 
 /-! ### retrEnd -/
 
-theorem SI_retrExit {c : Cfg} {s1 : State} {j : Job} {g : Nat} (hj : jobOK c g j) (h1 : SI c s1) :
+theorem SI_retrExit {c : Cfg} {s1 : State} {j : Job} {g : Nat} (hj : jobOK c g j) (h1 : SI c s1)
+    (hx : s1.pdone = true ∨ j.orphan = [] ∨ j.base < headOffs c s1) :
     SI c (retrExit s1 j) := by
-  obtain ⟨a1, a2, a3, a4, a5, a6, a7, a8, a9, a10, a11, a12⟩ := h1
-  refine ⟨a1, a2, a3, a4, a5, a6, a7, a8, a9, a10, ?_, a12⟩
-  intro u hu
+  obtain ⟨a1, a2, a3, a4, a5, a6, a7, a8, a9, a10, a11, a12, a13⟩ := h1
+  refine ⟨a1, a2, a3, a4, a5, a6, a7, a8, a9, a10, ?_, a12, a13⟩
+  intro hd u hu
+  have hd' : s1.pdone = false := hd
   simp only [retrExit, List.mem_append] at hu
   rcases hu with hu | hu
-  · exact ubOK_orphan hj u hu
-  · exact a11 u hu
+  · rcases hx with hx | hx | hx
+    · rw [hx] at hd'; cases hd'
+    · rw [hx] at hu; cases hu
+    · exact ubOK_orphan (s' := retrExit s1 j) hj hx u hu
+  · exact a11 hd' u hu
 
-theorem SI_retrMove {c : Cfg} {s1 : State} (j : Job) (newc : Nat) (h1 : SI c s1) :
+theorem SI_retrMove {c : Cfg} {s1 : State} (j : Job) (newc : Nat) (h1 : SI c s1)
+    (hm : j.master = true → newc ≤ s1.gnext) :
     SI c (retrMove c s1 j newc) := by
   unfold retrMove; split
-  · exact SI_congr (SI_advance newc h1) rfl rfl rfl rfl rfl rfl rfl rfl rfl rfl rfl rfl
+  · next hmas =>
+    refine SI_congr (SI_advance newc h1 ?_) rfl rfl rfl rfl rfl rfl rfl rfl rfl rfl rfl rfl rfl
+    intro _ b hb
+    have := (pres_hdr hb).1
+    have := hm hmas
+    omega
   · exact h1
 
 theorem retrMove_fields (c : Cfg) (s1 : State) (j : Job) (newc : Nat) :
     (retrMove c s1 j newc).ptok = s1.ptok ∧ (retrMove c s1 j newc).pphase = s1.pphase ∧
     (retrMove c s1 j newc).gnext = s1.gnext ∧ (retrMove c s1 j newc).failed = s1.failed ∧
-    mcount (retrMove c s1 j newc) ≤ mcount s1 := by
+    mcount (retrMove c s1 j newc) ≤ mcount s1 ∧ (retrMove c s1 j newc).pdone = s1.pdone := by
   unfold retrMove; split
-  · refine ⟨rfl, rfl, rfl, rfl, ?_⟩
+  · refine ⟨rfl, rfl, rfl, rfl, ?_, rfl⟩
     apply mcount_le_of
     · exact List.Sublist.countP_le List.filter_sublist
     · exact Nat.le_refl _
-  · exact ⟨rfl, rfl, rfl, rfl, Nat.le_refl _⟩
+  · exact ⟨rfl, rfl, rfl, rfl, Nat.le_refl _, rfl⟩
 
 theorem master_mc {j : Job} (hm : j.master = true)
     (hna : j.redundant = false) :
@@ -161,6 +220,48 @@ theorem ejOK_new (c : Cfg) (j : Job) :
   have := rres_nb_pos c j.base
   cases hok : (rres c j.base).ok <;> simp [ejOK, hok] <;> omega
 
+theorem newc_ge (c : Cfg) (j : Job) (k : Option Nat) : j.curr ≤ retrNewc c j k := by
+  unfold retrNewc; split <;> omega
+
+theorem orphan_redundant {j : Job} (h : j.redundant = true) : j.orphan = [] := by
+  unfold Job.redundant at h; unfold Job.orphan
+  cases hu : j.ub with
+  | none => rfl
+  | some f =>
+    simp only [hu, Bool.and_eq_true] at h ⊢
+    simp [h.1]
+
+theorem mc_retrMoreJob (j : Job) (newc : Nat) : Job.mc (retrMoreJob j newc) = Job.mc j := by
+  unfold retrMoreJob Job.mc
+  cases hu : j.ub with
+  | none => simp
+  | some f => cases hm : j.master <;> simp
+
+theorem jobOK_retrMoreJob {c : Cfg} {g : Nat} {j : Job} {newc : Nat} (hj : jobOK c g j)
+    (h1 : j.curr ≤ newc) (h2 : newc ≤ (rres c j.base).e) : jobOK c g (retrMoreJob j newc) := by
+  obtain ⟨j1, j2, j3, j4, j5⟩ := hj
+  refine ⟨h2, ?_, ?_, ?_, ?_⟩
+  · intro hm; rw [mc_retrMoreJob] at hm; exact j2 hm
+  · intro f hf hi
+    unfold retrMoreJob at hf
+    cases hu : j.ub with
+    | none => simp [hu] at hf
+    | some f0 =>
+      simp only [hu] at hf
+      split at hf
+      · simp only [Option.some.injEq] at hf; subst hf; exact j3 f0 hu hi
+      · simp only [Option.map_some, Option.some.injEq] at hf; subst hf; exact j3 f0 hu hi
+  · show j.base ≤ newc; omega
+  · intro f hf
+    unfold retrMoreJob at hf
+    cases hu : j.ub with
+    | none => simp [hu] at hf
+    | some f0 =>
+      simp only [hu] at hf
+      split at hf
+      · simp only [Option.some.injEq] at hf; subst hf; exact j5 f0 hu
+      · simp only [Option.map_some, Option.some.injEq] at hf; subst hf; exact h2
+
 theorem SI_retrEnd {c : Cfg} {s s' : State} {j : Job} {k : Option Nat} (h : SI c s)
     (hs : stepRetrEnd c s j k = some s') : SI c s' ∧ s'.failed = s.failed := by
   unfold stepRetrEnd at hs; split at hs
@@ -181,73 +282,83 @@ theorem SI_retrEnd {c : Cfg} {s s' : State} {j : Job} {k : Option Nat} (h : SI c
         + (if Job.mc j then 1 else 0) = List.countP Job.mc s.retrQ + List.countP Phase.mc s.busy
       omega
     generalize detach { s with busy := s.busy.erase (.retr j k) } k = s1 at h1 hf hmc1 hs
-    obtain ⟨f1, f2, f3, f4, f5, f6, f7, f8, f9, f10, f11⟩ := hf
+    obtain ⟨f1, f2, f3, f4, f5, f6, f7, f8, f9, f10, f11, f12⟩ := hf
     have f1 : s1.ptok = s.ptok := f1
     have f2 : s1.pphase = s.pphase := f2
     have f4 : s1.gnext = s.gnext := f4
     have f6 : s1.failed = s.failed := f6
     dsimp only at hs
     have hnl := newc_le (k := k) hj.1
-    generalize retrNewc c j k = newc at hs hnl
+    have hnge := newc_ge c j k
+    generalize retrNewc c j k = newc at hs hnl hnge
     by_cases hpd : s1.pdone = true
     · rw [if_pos hpd] at hs
       simp only [Option.some.injEq] at hs; subst hs
-      exact ⟨SI_retrExit hj h1, f6⟩
+      exact ⟨SI_retrExit hj h1 (Or.inl hpd), f6⟩
     · rw [if_neg hpd] at hs
       by_cases hab : j.redundant = true
       · rw [if_pos hab] at hs
         simp only [Option.some.injEq] at hs; subst hs
-        exact ⟨SI_retrExit hj h1, f6⟩
+        exact ⟨SI_retrExit hj h1 (Or.inr (Or.inl (orphan_redundant hab))), f6⟩
       · rw [if_neg hab] at hs
         have hna' : j.redundant = false := by simpa using hab
-        have h2 := SI_retrMove j newc h1
-        obtain ⟨m1, m2, m3, m4, m5⟩ := retrMove_fields c s1 j newc
-        generalize retrMove c s1 j newc = s2 at h2 m1 m2 m3 m4 m5 hs
+        have hmaster : j.master = true → Job.mc j = true := fun hm => master_mc hm hna'
+        have h2 := SI_retrMove j newc h1 (fun hm => by
+          have := hj.2.1 (hmaster hm); rw [f4]; omega)
+        obtain ⟨m1, m2, m3, m4, m5, m6⟩ := retrMove_fields c s1 j newc
+        generalize retrMove c s1 j newc = s2 at h2 m1 m2 m3 m4 m5 m6 hs
         have hg2 : s2.gnext = s.gnext := by rw [m3, f4]
-        obtain ⟨a1, a2, a3, a4, a5, a6, a7, a8, a9, a10, a11, a12⟩ := h2
-        cases hmas : j.master with
-        | true =>
-          have hmc := master_mc hmas hna'
-          have hms : mcount s = 1 := by simp only [hmc, if_true] at hmc1; omega
-          have hs1 : mcount s1 = 0 := by simp only [hmc, if_true] at hmc1; omega
-          have hs2 : mcount s2 = 0 := by omega
-          have hpt : s.ptok = false := by
-            cases hp : s.ptok with
-            | false => rfl
-            | true => have := hm0 (Or.inl hp); omega
-          have hpp : s.pphase = none := by
-            cases hp : s.pphase with
-            | none => rfl
-            | some x => have := hm0 (Or.inr (by simp [hp])); omega
-          by_cases hfin : (!decide ((rres c j.base).e ≤ newc)) = true
-          · -- MORE: the master goes back to retr_q
-            rw [if_pos hfin] at hs
+        have hjm : jobOK c s2.gnext (retrMoreJob j newc) := by
+          rw [hg2]; exact jobOK_retrMoreJob hj hnge hnl
+        have hmcj : Job.mc (retrMoreJob j newc) = Job.mc j := mc_retrMoreJob j newc
+        by_cases hfin : (!decide ((rres c j.base).e ≤ newc)) = true
+        · rw [if_pos hfin] at hs
+          by_cases hov : newc < headOffs c s2
+          · -- "Retriever was overtaken": discard
+            rw [if_pos hov] at hs
             simp only [Option.some.injEq] at hs; subst hs
-            refine ⟨⟨a1, a2, a3, a4, ?_, ?_, ?_, a8, a9, a10, a11, a12⟩, m4.trans f6⟩
-            · show List.countP Job.mc (_ :: s2.retrQ) + List.countP Phase.mc s2.busy ≤ 1
-              simp only [mcount] at hs2
-              rw [List.countP_cons]; split <;> omega
+            refine ⟨SI_retrExit hjm h2 (Or.inr (Or.inr ?_)), m4.trans f6⟩
+            have := hj.2.2.2.1
+            show j.base < headOffs c s2
+            omega
+          · -- MORE: back to retr_q
+            rw [if_neg hov] at hs
+            simp only [Option.some.injEq] at hs; subst hs
+            obtain ⟨a1, a2, a3, a4, a5, a6, a7, a8, a9, a10, a11, a12, a13⟩ := h2
+            refine ⟨⟨a1, a2, a3, a4, ?_, ?_, ?_, a8, a9, a10, a11, a12, a13⟩, m4.trans f6⟩
+            · show List.countP Job.mc (retrMoreJob j newc :: s2.retrQ) + List.countP Phase.mc s2.busy ≤ 1
+              rw [List.countP_cons, hmcj]
+              simp only [mcount] at m5 hmc1 hm1
+              omega
             · intro hh
               have hh' : s2.ptok = true ∨ s2.pphase.isSome = true := hh
-              rw [m1, f1, hpt, m2, f2, hpp] at hh'
-              simp at hh'
+              rw [m1, f1, m2, f2] at hh'
+              have h0 := hm0 hh'
+              show List.countP Job.mc (retrMoreJob j newc :: s2.retrQ) + List.countP Phase.mc s2.busy = 0
+              rw [List.countP_cons, hmcj]
+              simp only [mcount] at m5 hmc1 h0
+              omega
             · intro x hx
               rcases List.mem_cons.1 hx with e | hm
-              · subst e
-                show jobOK c s2.gnext _
-                rw [hg2]
-                have : (retrMoreJob j newc).ub = j.ub := by simp [retrMoreJob, hmas]
-                refine ⟨hnl, ?_, ?_⟩
-                · intro _; exact hj.2.1 hmc
-                · intro f hf; rw [this] at hf; exact hj.2.2 f hf
+              · subst e; exact hjm
               · exact a7 x hm
-          · -- done: the token goes back to the parser
-            rw [if_neg hfin] at hs
-            have hfin' : (rres c j.base).e ≤ newc := by simpa using hfin
+        · rw [if_neg hfin] at hs
+          have hfin' : (rres c j.base).e ≤ newc := by simpa using hfin
+          obtain ⟨a1, a2, a3, a4, a5, a6, a7, a8, a9, a10, a11, a12, a13⟩ := h2
+          cases hmas : j.master with
+          | true =>
+            have hmc := hmaster hmas
+            have hms : mcount s = 1 := by simp only [hmc, if_true] at hmc1; omega
+            have hs1 : mcount s1 = 0 := by simp only [hmc, if_true] at hmc1; omega
+            have hs2 : mcount s2 = 0 := by omega
+            have hpp : s.pphase = none := by
+              cases hp : s.pphase with
+              | none => rfl
+              | some x => have := hm0 (Or.inr (by simp [hp])); omega
             have hnew : newc = s.gnext := by have := hj.2.1 hmc; omega
             simp only [Option.some.injEq] at hs; subst hs
             simp only [retrDone, hmas, if_true]
-            refine ⟨⟨a1, a2, ?_, ?_, ?_, ?_, a7, ?_, a9, a10, a11, a12⟩, m4.trans f6⟩
+            refine ⟨⟨a1, a2, ?_, ?_, ?_, ?_, a7, ?_, a9, a10, a11, a12, a13⟩, m4.trans f6⟩
             · intro _; show newc = s2.gnext; rw [hnew, hg2]
             · intro _; show s2.pphase = none; rw [m2, f2, hpp]
             · show List.countP Job.mc s2.retrQ + List.countP Phase.mc (_ :: s2.busy) ≤ 1
@@ -261,40 +372,16 @@ theorem SI_retrEnd {c : Cfg} {s s' : State} {j : Job} {k : Option Nat} (h : SI c
               rcases List.mem_cons.1 hph with e | hm
               · subst e; exact ejOK_new c j
               · exact a8 ph hm
-        | false =>
-          have hub : ∃ f, j.ub = some f ∧ f.complete = false := by
-            unfold Job.master at hmas
-            cases hu : j.ub with
-            | none => simp [hu] at hmas
-            | some f => exact ⟨f, rfl, by simpa [hu] using hmas⟩
-          obtain ⟨f, hu, hfc⟩ := hub
-          by_cases hfin : (!decide ((rres c j.base).e ≤ newc)) = true
-          · rw [if_pos hfin] at hs
-            simp only [Option.some.injEq] at hs; subst hs
-            have hjm : Job.mc (retrMoreJob j newc) = false := by
-              simp [retrMoreJob, Job.mc, hmas, hu, hfc]
-            refine ⟨⟨a1, a2, a3, a4, ?_, ?_, ?_, a8, a9, a10, a11, a12⟩, m4.trans f6⟩
-            · show List.countP Job.mc (_ :: s2.retrQ) + List.countP Phase.mc s2.busy ≤ 1
-              rw [List.countP_cons, hjm]; simpa [mcount] using a5
-            · intro hh
-              have := a6 hh
-              show List.countP Job.mc (_ :: s2.retrQ) + List.countP Phase.mc s2.busy = 0
-              rw [List.countP_cons, hjm]; simpa [mcount] using this
-            · intro x hx
-              rcases List.mem_cons.1 hx with e | hm
-              · subst e
-                refine ⟨hnl, ?_, ?_⟩
-                · intro hh; rw [hjm] at hh; cases hh
-                · intro f' hf' _
-                  simp only [retrMoreJob, hmas, hu, Option.map_some, Bool.false_eq_true, if_false,
-                    Option.some.injEq] at hf'
-                  subst hf'; exact hfc
-              · exact a7 x hm
-          · rw [if_neg hfin] at hs
-            have hfin' : (rres c j.base).e ≤ newc := by simpa using hfin
+          | false =>
+            have hub : ∃ f, j.ub = some f ∧ f.complete = false := by
+              unfold Job.master at hmas
+              cases hu : j.ub with
+              | none => simp [hu] at hmas
+              | some f => exact ⟨f, rfl, by simpa [hu] using hmas⟩
+            obtain ⟨f, hu, hfc⟩ := hub
             simp only [Option.some.injEq] at hs; subst hs
             simp only [retrDone, hmas, hu]
-            refine ⟨⟨a1, a2, a3, a4, ?_, ?_, a7, ?_, a9, a10, ?_, a12⟩, m4.trans f6⟩
+            refine ⟨⟨a1, a2, a3, a4, ?_, ?_, a7, ?_, a9, a10, ?_, a12, a13⟩, m4.trans f6⟩
             · show List.countP Job.mc s2.retrQ + List.countP Phase.mc (_ :: s2.busy) ≤ 1
               rw [List.countP_cons]; simpa [mcount, Phase.mc] using a5
             · intro hh
@@ -304,12 +391,12 @@ theorem SI_retrEnd {c : Cfg} {s s' : State} {j : Job} {k : Option Nat} (h : SI c
               rcases List.mem_cons.1 hph with e | hm
               · subst e; exact ejOK_new c j
               · exact a8 ph hm
-            · intro u hu'
+            · intro hd u hu'
               simp only [Bool.false_eq_true, if_false, List.mem_append, List.mem_singleton,
                 List.cons_append, List.nil_append, List.mem_cons] at hu'
               rcases hu' with e | hm
-              · subst e; intro _ _; show newc = (rres c j.base).e; omega
-              · exact a11 u hm
+              · subst e; exact ⟨rfl, fun _ => Or.inl (show newc = (rres c j.base).e by omega)⟩
+              · exact a11 hd u hm
   · simp at hs
 
 end LbzVerif.Lemmas.SchedD
